@@ -184,6 +184,16 @@ def agree_tableformat(rep, config, selections, reqcache, prog):
             R.ok(npairs, sample='%s x %s: %d feasible path pairs, formats agree' % (COUPLED['producer'], cons, npairs))
 
 
+def check_tablefmt(rep):
+    """D-AGREE-TABLEFMT of the default configuration, for the properties whose statement includes "tables built with the builder that matches the consumer" (C03, C09, C12, C13)"""
+    tmp = Report('C16', 'quick', level='other')
+    analyse_config(tmp, 'default', collections.Counter())
+    got = [r for r in tmp.rules if r.id.startswith('D-AGREE-TABLEFMT')]
+    if not got:
+        raise AnalysisBroken('D-AGREE-TABLEFMT was not evaluated')
+    rep.rules += got
+
+
 def main(tier):
     rep = Report('C16', tier, level='proof')
     rep.undecided = ('"all choices agree on results" (functional equivalence of the variants) is not decided here; CPUID leaf-7 availability '
